@@ -71,7 +71,7 @@ def op_fn(o):
     return None
 
 
-FN_IN_TY = re.compile(r"[FC]\{([^<>{}|,]+)")
+FN_IN_TY = re.compile(r"[FC]\{((?:[^<>{}|,]|\{\w+#\d+\})+)")
 
 
 def fns_in_type(s):
